@@ -28,7 +28,17 @@ pub struct ChunkedChars<R: Read> {
     /// Remember IO error, if any, here to report it later. This must be shared,
     /// as otherwise we cannot later reach with Saphyr parser API
     pub(crate) err: Rc<RefCell<Option<Error>>>,
+    /// Verification hook H1: number of polls made after the source has ended.
+    #[cfg(serde_saphyr_verif)]
+    verif_polls_after_end: usize,
 }
+
+/// Verification hook H1 (only with `--cfg serde_saphyr_verif`): a healthy parse polls the char
+/// source a few dozen times after it has ended; a caller that spins on it never stops. The
+/// marked panic is the simulator's deterministic liveness monitor for loops that do not reach
+/// the reader any more (a transcoding decoder caches exhaustion).
+#[cfg(serde_saphyr_verif)]
+const VERIF_MAX_POLLS_AFTER_END: usize = 65_536;
 
 impl<R: Read> ChunkedChars<R> {
     pub fn new(reader: R, max_bytes: Option<usize>, err: Rc<RefCell<Option<Error>>>) -> Self {
@@ -37,7 +47,24 @@ impl<R: Read> ChunkedChars<R> {
             total_bytes: 0,
             reader,
             err,
+            #[cfg(serde_saphyr_verif)]
+            verif_polls_after_end: 0,
         }
+    }
+
+    #[cfg(serde_saphyr_verif)]
+    fn next_inner_verif(&mut self) -> Option<char> {
+        let r = self.next_inner();
+        if r.is_none() {
+            self.verif_polls_after_end += 1;
+            if self.verif_polls_after_end > VERIF_MAX_POLLS_AFTER_END {
+                panic!(
+                    "serde_saphyr_verif liveness: char source polled {} times after it ended",
+                    self.verif_polls_after_end
+                );
+            }
+        }
+        r
     }
 }
 
@@ -48,6 +75,16 @@ impl<R: Read> Iterator for ChunkedChars<R> {
     /// If error occurs, sets the error field that is a shared reference to the
     /// error value, so that the parser can later pick this up.
     fn next(&mut self) -> Option<char> {
+        #[cfg(serde_saphyr_verif)]
+        return self.next_inner_verif();
+        #[cfg(not(serde_saphyr_verif))]
+        self.next_inner()
+    }
+}
+
+impl<R: Read> ChunkedChars<R> {
+    /// Returns the next Unicode scalar value from the stream, or `None` on EOF or error.
+    fn next_inner(&mut self) -> Option<char> {
         // Read exactly one UTF-8 codepoint (1..=4 bytes) from the underlying reader.
         // No internal buffering: rely on the outer BufReader and decoder.
         let mut buf = [0u8; 4];
